@@ -285,12 +285,16 @@ def rule_PYTYPE(ctx, floor=150):
         key = 'safe_spanning_type:[%s]' % ', '.join(labels)
         r.inst(key, sample='[%s] -> %s' % (', '.join(labels), res), nontrivial=labels[0] != labels[1])
         if is_c and any(p != pyt for p in pyts):
-            bad.setdefault(tuple(sorted(set(labels))), []).append((labels, res, pyt, [l for l, p in zip(labels, pyts) if p != pyt]))
-    for pair, rows in sorted(bad.items()):
-        labels, res, pyt, lost = rows[0]
-        r.violate('safe_spanning_type:%s' % '+'.join(pair), TI, fs.lineno,
-                  'merging the kinds %s gives the C type %s (Python type %s): a value of kind %s assigned to the variable comes back as %s, '
-                  'infer_types=False keeps its type' % (' and '.join(pair), res, pyt, '/'.join(lost), pyt))
+            for l, p in zip(labels, pyts):
+                if p != pyt:
+                    # construct = which Python type is lost to which: a handful of classes instead of one key per pair of C kinds
+                    bad.setdefault((p, pyt), []).append((labels, res, l))
+    for (lost_py, got_py), rows in sorted(bad.items()):
+        pairs = sorted({' + '.join(sorted(set(labels))) for labels, res, l in rows})
+        labels, res, l = rows[0]
+        r.violate('safe_spanning_type:%s-comes-back-as-%s' % (lost_py, got_py), TI, fs.lineno,
+                  'safe inference merges a %s kind with a %s kind into one C variable (%d kind pairs, e.g. %s -> %s): a %s assigned to the variable comes back as %s, '
+                  'infer_types=False keeps its type' % (lost_py, got_py, len(pairs), pairs[0], res, lost_py, got_py))
     ctl = _control_table(dom, m, False)
     r.positive_control(any(is_c and set(labels) == {'C long', 'C double'} for labels, res, pyt, is_c, pyts in ctl), 'int merged with double becomes a C double')
     return r
